@@ -100,6 +100,27 @@ pub fn run(tier: Tier, seed: u64) -> i32 {
         evals.fetch_add(3, Ordering::Relaxed);
     });
 
+    // (2c) multi-megabyte inputs (block-wise feeding with a dropped remainder only shows above the block size)
+    {
+        let big: Vec<usize> = if tier == Tier::Thorough { vec![(1 << 20) + 1, (1 << 22) + 1, 5_000_000, (1 << 24) + 7, 40_000_003] } else { vec![(1 << 20) + 1, (1 << 22) + 1, 5_000_000] };
+        big.par_iter().for_each(|&n| {
+            let data: Vec<u8> = (0..n).map(|i| (i as u32).wrapping_mul(2_654_435_761).to_le_bytes()[3]).collect();
+            for c in [[0, 0, 0, 0], [n, n, n, n], [1, 2, 3, n - 1], [n / 5, 2 * (n / 5), 3 * (n / 5), 4 * (n / 5)]] {
+                check_split(&report, &data, c, &salt, &key);
+            }
+            // the last byte matters
+            let mut d2 = data.clone();
+            *d2.last_mut().unwrap() ^= 1;
+            if login_integrity_check_generic(&d2, &salt, &key) == login_integrity_check_generic(&data, &salt, &key)
+                || login_integrity_check_windows(&d2, &[], &[], &[], &[], &salt, &key) == login_integrity_check_windows(&data, &[], &[], &[], &[], &salt, &key)
+                || login_integrity_check_mac(&[], &[], &[], &[], &d2, &salt, &key) == login_integrity_check_mac(&[], &[], &[], &[], &data, &salt, &key)
+            {
+                viol(&report, "file-byte-sensitivity", json!({"length": n, "changed": "last byte"}), format!("changing the last byte of a {n}-byte input does not change the result"));
+            }
+            evals.fetch_add(4, Ordering::Relaxed);
+        });
+    }
+
     // (3) sensitivity: every single-byte change of every file, the salt and the key changes the result (and still equals the reference)
     let files: [Vec<u8>; 5] = [
         refmodel::ctr_bytes(seed, "f0", 7),
